@@ -98,6 +98,9 @@ structure Pin where
 structure Cluster where
   id : Id
   active : Bool                              -- ClusterRef::m_active = member of Router::clusterRefs
+  /-- obstacles whose polygon the cluster's `ReferencingPolygon` points into: the boundary points that carry an
+      obstacle id (`Point::id`, `Point::vn`) are kept as (pointer to that obstacle's polygon, vertex number) -/
+  refs : List Id := []
   deriving DecidableEq, Repr, Inhabited
 
 inductive Fault where
@@ -121,6 +124,10 @@ structure St where
   vcreated : List Id := []                   -- log: every checkpoint vertex ever allocated (separate id space)
   vfreed : List Id := []                     -- log: every checkpoint vertex `delete`, with multiplicity
   faults : List Fault := []
+  /-- obstacles that were freed while a cluster boundary still referenced them, recorded when the router next
+      reads the boundary (`ReferencingPolygon::at`, geomtypes.cpp:199, from cost() / generateContains() during
+      rerouting): a use-after-free of the obstacle's polygon -/
+  refFaults : List Id := []
   deriving Repr, Inhabited
 
 def init : St := {}
@@ -152,12 +159,12 @@ inductive Op where
   | rDelJunction (id : Id)
   | rNewJunction (id pin : Id)
   | rNewConn (id : Id)
-  /-- `new ClusterRef(router, poly, id)` -/
-  | newCluster (id : Id)
+  /-- `new ClusterRef(router, poly, id)`; `refs` = the obstacle ids carried by the points of `poly` -/
+  | newCluster (id : Id) (refs : List Id)
   /-- `Router::deleteCluster(cluster)` -/
   | deleteCluster (id : Id)
-  /-- `ClusterRef::setNewPoly(poly)` -/
-  | setClusterPoly (id : Id)
+  /-- `ClusterRef::setNewPoly(poly)`; `refs` as for `newCluster` -/
+  | setClusterPoly (id : Id) (refs : List Id)
   /-- a `ConnRef` method that ends in `Router::modifyConnector(conn)` (no ConnEnd):
       `ConnRef::setRoutingType(t)` with `t` different from the current type -/
   | touchConn (c : Id)
@@ -271,8 +278,20 @@ def St.setCheckpoints (s : St) (c : Id) (vs : List Id) : St :=
     vcreated := s.vcreated ++ vs }
 
 /-- ClusterRef::ClusterRef: `assignId`, `Router::addCluster` → `makeActive` -/
-def St.addCluster (s : St) (k : Id) : St :=
-  { s with clusters := s.clusters ++ [{ id := k, active := true }], created := s.created ++ [k] }
+def St.addCluster (s : St) (k : Id) (refs : List Id := []) : St :=
+  { s with clusters := s.clusters ++ [{ id := k, active := true, refs := refs }], created := s.created ++ [k] }
+
+/-- ClusterRef::setNewPoly: `m_polygon = ReferencingPolygon(poly, m_router)` — the old references are dropped -/
+def St.setClusterRefs (s : St) (k : Id) (refs : List Id) : St :=
+  { s with clusters := s.clusters.map (fun x => if x.id == k then { x with refs := refs } else x) }
+
+/-- the references of linked clusters that point into freed obstacles -/
+def St.dangling (s : St) : List Id :=
+  (s.clusters.filter (·.active)).flatMap (fun k => k.refs.filter (fun r => !s.hasObst r))
+
+/-- rerouting reads every linked cluster's boundary (cost() for the crossing penalty, generateContains() for each
+    connector endpoint): a reference into a freed obstacle is dereferenced -/
+def St.routeClusters (s : St) : St := { s with refFaults := s.refFaults ++ s.dangling }
 
 /-- Router::deleteCluster since /repo def6b3d, and the loop body of `~Router`: `makeInactive`, `delete` -/
 def St.freeCluster (s : St) (k : Id) : St :=
@@ -365,7 +384,7 @@ def St.processActions (s : St) : St :=
 /-- Router::processTransaction (the hyperedge-rerouter / settings-change conditions are not modelled:
     with an empty action list nothing about object lifetime changes) -/
 def St.processTransaction (s : St) : St :=
-  if s.actions.isEmpty then s else reroute s.processActions
+  if s.actions.isEmpty then s else (reroute s.processActions).routeClusters
 
 /-- `if (!m_consolidate_actions) processTransaction();` -/
 def St.maybeProcess (s : St) : St := if s.consolidate then s else s.processTransaction
@@ -449,11 +468,11 @@ def step (s : St) (op : Op) : St :=
     if !s.hasJunction id then s.addFault (.notAllocated id) else (s.freeObstacle id).removeFromQueue id
   | .rNewJunction id pin => (s.addObst id true true).addPin pin id centreCls
   | .rNewConn id => s.addConn id true
-  | .newCluster id => s.addCluster id        -- nothing queued, `processTransaction` is not called
+  | .newCluster id refs => s.addCluster id refs        -- nothing queued, `processTransaction` is not called
   | .deleteCluster id =>
     if !s.hasCluster id then s.addFault (.notAllocated id) else s.freeCluster id
-  | .setClusterPoly id =>
-    if !s.hasCluster id then s.addFault (.notAllocated id) else s
+  | .setClusterPoly id refs =>
+    if !s.hasCluster id then s.addFault (.notAllocated id) else s.setClusterRefs id refs
   | .touchConn c =>
     if !s.hasConn c then s.addFault (.notAllocated c) else (s.enqueue .connChange c).maybeProcess
   | .touchPin pin =>
@@ -496,6 +515,14 @@ def mentions (a : Action) (o : Id) : Bool := a.ends.any (fun u => match u.2 with
 
 def St.pendingRemove (s : St) (o : Id) : Bool := s.hasAction .shapeRemove o || s.hasAction .junctionRemove o
 
+/-- what a cluster boundary may reference: `ReferencingPolygon`'s constructor looks the id up in `m_obstacles`
+    (asserting that it finds it), so the obstacle is active, and the caller still owns a reference to it -/
+def refsOk (s : St) (refs : List Id) : Bool :=
+  refs.all (fun r => s.obst.any (fun x => x.id == r && x.active) && !s.pendingRemove r)
+
+/-- some cluster boundary references obstacle `o` -/
+def St.referenced (s : St) (o : Id) : Bool := s.clusters.any (fun k => k.refs.contains o)
+
 /-- **Documented preconditions only**: the router is alive, new ids are unused
     (`Router::assignId` asserts it), every object passed in is one the caller still owns a reference
     to — allocated and not already handed to deleteShape/deleteJunction ("You should not use the
@@ -519,12 +546,12 @@ def LegalDoc (s : St) (op : Op) : Bool :=
   | .setTransactionUse _ => true
   | .deleteRouter => true
   | .rDelConn id => s.hasConn id && s.actions.isEmpty
-  | .rDelJunction id => s.hasJunction id && s.actions.isEmpty
+  | .rDelJunction id => s.hasJunction id && s.actions.isEmpty && !s.referenced id
   | .rNewJunction id pin => !s.created.contains id && !s.created.contains pin && id != pin && s.actions.isEmpty
   | .rNewConn id => !s.created.contains id && s.actions.isEmpty
-  | .newCluster id => !s.created.contains id
+  | .newCluster id refs => !s.created.contains id && refsOk s refs
   | .deleteCluster id => s.hasCluster id
-  | .setClusterPoly id => s.hasCluster id
+  | .setClusterPoly id refs => s.hasCluster id && refsOk s refs
   | .touchConn c => s.hasConn c
   | .touchPin pin => s.pins.any (fun p => p.id == pin && s.hasShape p.owner && !s.pendingRemove p.owner)
   | .apiRouter => true
@@ -540,15 +567,18 @@ def LegalDoc (s : St) (op : Op) : Bool :=
        restrictions are gone from `Legal` and the model no longer raises those faults);
     K4 a queued connector-end change that names an obstacle is used after that obstacle was freed in
        the same transaction;
+    K6 a cluster boundary that references an obstacle's vertices (`ReferencingPolygon`) keeps raw pointers
+       into that obstacle: deleting the obstacle leaves them dangling, the next rerouting reads them.
     -/
 def Legal (s : St) (op : Op) : Bool :=
   LegalDoc s op &&
   match op with
   | .deleteShape id =>
     !s.hasAction .shapeAdd id &&                                                     -- K2
-    !s.actions.any (mentions · id)                                                   -- K4
+    !s.actions.any (mentions · id) &&                                                -- K4
+    !s.referenced id                                                                 -- K6
   | .deleteJunction id =>
-    !s.hasAction .junctionAdd id && !s.actions.any (mentions · id)
+    !s.hasAction .junctionAdd id && !s.actions.any (mentions · id) && !s.referenced id
   | .deleteRouter => s.obst.all (·.active) && s.conns.all (·.active)                 -- K1
   | _ => true
 
